@@ -273,7 +273,7 @@ pub fn run(cfg: &Cfg) -> Report {
         sequence_case(&mut rep);
         total.merge(rep);
     }
-    let plan: Vec<(u64, u64)> = vec![(0, 4096), (1, 16384), (2, 2048), (3, cfg.n(2_000, 40_000)), (4, cfg.n(1600, 16000))];
+    let plan: Vec<(u64, u64)> = vec![(0, 4096), (1, 16384), (2, 2048), (3, cfg.n(2_000, 400_000)), (4, cfg.n(1600, 160_000))];
     for (class, n) in plan {
         if !cfg.wants(class) {
             continue;
